@@ -210,12 +210,20 @@ CompEls(T, n, cname, mk, rp) ==
                                       ELSE [local_name |-> "s:" \o m.ports[i]]])]
     IN  Over(Over(comp, ns), ifs)
 
-AddComponent(T, n, cname, mk) ==
+\* ifcid (substrate models): the caller-supplied id of the component's LAST interface; an id that is already taken is
+\* discovered only when that interface is written - the whole component is refused and nothing of it stays
+AddComponent(T, n, cname, mk, ifcid) ==
     IF ~Has(T, n) \/ Cls(T, n) # NN THEN Fail(T, "NoSuchElement")
     ELSE IF \E c \in KidsOf(T, n, CO) : T.el[c].name = cname THEN Fail(T, TErr)
     ELSE IF mk \notin DOMAIN Models THEN Fail(T, CErr)
     ELSE IF ~ValidName(cname) THEN Fail(T, VErr)
-    ELSE Ok([T EXCEPT !.el = Over(T.el, CompEls(T, n, cname, mk, <<>>))])
+    ELSE IF ifcid # "" /\ Len(Models[mk].ports) > 0 /\ CidUsed(T, ifcid) THEN Fail(T, QErr)
+    ELSE LET els == CompEls(T, n, cname, mk, <<>>)
+             m == Models[mk]
+             last == IF Len(m.ports) = 0 THEN ""
+                     ELSE Path(Path(Path(n, cname), T.el[n].name \o "-" \o cname \o (IF m.type = "FPGA" THEN "-l2p4" ELSE "-l2ovs")),
+                               cname \o "-" \o m.ports[Len(m.ports)])
+         IN  Ok([T EXCEPT !.el = Over(T.el, IF ifcid # "" /\ last # "" THEN [els EXCEPT ![last] = WithCid(@, ifcid)] ELSE els)])
 
 AddStorage(T, n, cname) ==
     IF ~Has(T, n) \/ Cls(T, n) # NN THEN Fail(T, "NoSuchElement")
@@ -649,7 +657,7 @@ WithHandles(o, r) ==
 ApplyRaw(T, o) ==
     CASE o.op = "AddNode"        -> AddNode(T, o.name, o.site, o.ntype, Fn(o.rp), IF "cid" \in DOMAIN o THEN o.cid ELSE "")
       [] o.op = "RemoveNode"     -> RemoveNode(T, o.name)
-      [] o.op = "AddComponent"   -> AddComponent(T, o.n, o.name, o.model)
+      [] o.op = "AddComponent"   -> AddComponent(T, o.n, o.name, o.model, IF "ifcid" \in DOMAIN o THEN o.ifcid ELSE "")
       [] o.op = "AddStorage"     -> AddStorage(T, o.n, o.name)
       [] o.op = "RemoveComponent" -> RemoveComponent(T, o.n, o.name)
       [] o.op = "AddService"     -> AddService(T, o.name, o.nstype, o.ifs, o.site, Fn(o.rp))
